@@ -98,6 +98,10 @@ func (k Keeper) handleDoubleSign(ctx sdk.Ctx, addr crypto.Address, infractionHei
 	if err != nil {
 		panic(err)
 	}
+	// evidence older than the max evidence age is ignored (no validator is returned for it)
+	if validator == nil {
+		return
+	}
 	// We need to retrieve the stake distribution which signed the block, so we subtract ValidatorUpdateDelay from the evidence height.
 	// Note that this *can* result in a negative "distributionHeight", up to -ValidatorUpdateDelay,
 	distributionHeight := infractionHeight - sdk.ValidatorUpdateDelay
